@@ -24,12 +24,12 @@ ASSUMPTIONS = ["overflow-checked unsigned Add/Mul cannot wrap below their operan
 PARAMS = "abyssiniandb::filedb::FileDbParams"
 # (function name, expression) -> (reason, precondition id)
 TRIAGED_SUB = {
-    ("next_key_piece_offset", "idx - 8"): ("the byte-wise bitmap loop before it executes at least once (idx < buckets_size on entry and after the wide loop's compensation), adding 8", "scan-callers-guarded"),
-    ("free_piece_list_offset_of_header", "len(self.size_ary) - 2"): ("size-class table of a record file has 16 entries", "tables-nonempty"),
-    ("free_piece_list_offset_of_header", "len(self.free_list_offset) - 1"): ("free-list head table of a record file has 16 entries", "tables-nonempty"),
-    ("is_large_piece_size", "len(self.size_ary) - 1"): ("size-class table of a record file has 16 entries", "tables-nonempty"),
-    ("roundup", "len(self.size_ary) - 1"): ("size-class table of a record file has 16 entries", "tables-nonempty"),
-    ("can_down", "len(self.size_ary) - 1"): ("size-class table of a record file has 16 entries", "tables-nonempty"),
+    ("SCAN", "idx - 8"): ("the byte-wise bitmap loop before it executes at least once (idx < buckets_size on entry and after the wide loop's compensation), adding 8", "scan-callers-guarded"),
+    ("FREE_HEAD_OFFSET", "len(self.size_ary) - 2"): ("size-class table of a record file has 16 entries", "tables-nonempty"),
+    ("FREE_HEAD_OFFSET", "len(self.free_list_offset) - 1"): ("free-list head table of a record file has 16 entries", "tables-nonempty"),
+    ("IS_LARGE", "len(self.size_ary) - 1"): ("size-class table of a record file has 16 entries", "tables-nonempty"),
+    ("ROUNDUP", "len(self.size_ary) - 1"): ("size-class table of a record file has 16 entries", "tables-nonempty"),
+    ("CAN_DOWN", "len(self.size_ary) - 1"): ("size-class table of a record file has 16 entries", "tables-nonempty"),
 }
 
 
@@ -128,6 +128,11 @@ def check_unsigned_sub(ctx, prog, R):
     cond_cache = {}
     pre_needed = set()
     classes = {}
+    role_of = {}
+    for r in ("SCAN", "FREE_HEAD_OFFSET", "IS_LARGE", "ROUNDUP", "CAN_DOWN"):
+        f = R.get(r)
+        if f is not None:
+            role_of[f.id] = r
     for fn, b, s, A, B in k7.sub_sites(prog):
         n += 1
         ctx.touch(fn)
@@ -145,9 +150,9 @@ def check_unsigned_sub(ctx, prog, R):
                 cls = "guarded@bb%d" % g[0]
             elif _is_param_sub(fn, A, B):
                 cls = _callers_guarded(ctx, prog, fn, inst)
-            elif (fn.name, expr) in TRIAGED_SUB:
+            elif (role_of.get(fn.id), expr) in TRIAGED_SUB:
                 cls = "triaged"
-                pre_needed.add(TRIAGED_SUB[(fn.name, expr)][1])
+                pre_needed.add(TRIAGED_SUB[(role_of.get(fn.id), expr)][1])
             else:
                 cls = None
         classes[inst] = cls
